@@ -32,14 +32,16 @@ ASSUMPTIONS = [
 ]
 REQUIRED_CLASSES = ["mech:limit-hit", "mech:max_step-clips", "mech:max_step-clips-several", "mech:disabled-knob(persistent)",
                     "mech:disabled-knob(temporary)", "mech:disabled-target(persistent)", "mech:disabled-target(temporary)",
-                    "mech:disable_vary_name", "weights:unit", "weights:other", "metamorphic-twin"]
+                    "mech:disable_vary_name", "weights:unit", "weights:other", "metamorphic-twin", "targets:optimize_log",
+                    "mech:disabled-optimize_log-target"]
 
 
 @st.composite
 def cases(draw):
     spec = draw(OG.problems(limits="always", max_step=draw(st.sampled_from(["mixed", "all", "all", "none"])),
                             weights=draw(st.sampled_from(["unit", "mixed"])),
-                            target_modes=["outside", "outside", "far", "far", "reachable", "on-limit", "arbitrary"]))
+                            target_modes=["outside", "outside", "far", "far", "reachable", "on-limit", "arbitrary"],
+                            families=("lin", "quad", "trig", "exp")))
     n, m = spec["n"], spec["m"]
     plan = []
     for _ in range(draw(st.integers(1, 4))):
@@ -122,6 +124,10 @@ def exec_case(ctx, spec):
     if spec["disabled_targets"]:
         classes.add("mech:disabled-target(persistent)")
         state["nt"] = True
+    if spec.get("log_targets"):
+        classes.add("targets:optimize_log")
+        if set(spec["log_targets"]) & set(spec["disabled_targets"]):
+            classes.add("mech:disabled-optimize_log-target")
 
     def observer(ci, call, before, writes, exc):
         if state["fail"] is not None:
